@@ -304,6 +304,22 @@ impl Swarm {
             if !self.live(w, i) {
                 continue;
             }
+            // a peer that unchokes us and has announced a piece nobody is fetching must be asked for
+            // something: otherwise the connection just sits there until the keep-alive limit ends it
+            // (a reconnect may then rescue the download, which is why the liveness obligation alone
+            // does not see this)
+            if !self.is_inert(i) && mon.p[i].hs && mon.p[i].unchoked && mon.p[i].outstanding.is_empty() {
+                if let Some(snap) = w.snap() {
+                    let owned: Vec<usize> = (0..self.owners[i].len()).filter(|k| self.owners[i][*k]).collect();
+                    let announced: Vec<usize> = if self.by_have[i] { owned.iter().cloned().take(mon.p[i].announced).collect() } else if mon.p[i].bitfield { owned.clone() } else { vec![] };
+                    if let Some(k) = announced.iter().find(|k| snap.statuses[**k] == Status::Missing) {
+                        return Some((
+                            "unchoking-peer-with-a-wanted-piece-left-idle",
+                            format!("peer {} unchoked us and announced piece {}, which the client lacks and nobody is fetching, but no request is outstanding on that connection; {}", i, k, w.session_key()),
+                        ));
+                    }
+                }
+            }
             if let Some(h) = w.handler(i) {
                 if let Some(rx) = &h.piece_rx {
                     for (b, l) in &rx.requested {
@@ -956,7 +972,7 @@ pub fn run(ctx: &Ctx) -> Outcome {
     o.set("unseamed_replays", json!(unseamed));
     o.set("unseamed_replay_details", Value::Array(unseamed_rows));
     o.set("scenarios", Value::Array(per));
-    o.set("rule", json!("full-session world; honest peer i: hs handshake, bf bitfield (first message) or hv next Have, un unchoke, ao/an correct answer to the oldest/newest outstanding request, as the same answer split into two reads, hb handshake+bitfield in one read, ck one choke (then un again), in/ni interest, cl disconnect (only peers whose pieces have another owner; they are offered again by the next announce), xa/xc an answer of one peer and the disconnect of another arriving before the client runs (both orders), rl release of one held-back manager broadcast to a connection task (gated scenario), tick = 10 s of virtual time; inert peers (scenarios with > 11 tracker entries) only keep their connection alive and may leave; BFS over all orders to the stated depth; in every state: no task panicked, session alive, Have implies a stored verified piece, an owned piece stays owned, no connection task waits for a block its honest peer already delivered; every state that is not expanded further must reach 'all pieces owned, extractor ran, every output file byte-identical, event loop still iterating' under the fair default continuation (each honest peer does its next scripted action, otherwise time passes up to a 900 s horizon)."));
+    o.set("rule", json!("full-session world; honest peer i: hs handshake, bf bitfield (first message) or hv next Have, un unchoke, ao/an correct answer to the oldest/newest outstanding request, as the same answer split into two reads, hb handshake+bitfield in one read, ck one choke (then un again), in/ni interest, cl disconnect (only peers whose pieces have another owner; they are offered again by the next announce), xa/xc an answer of one peer and the disconnect of another arriving before the client runs (both orders), rl release of one held-back manager broadcast to a connection task (gated scenario), tick = 10 s of virtual time; inert peers (scenarios with > 11 tracker entries) only keep their connection alive and may leave; BFS over all orders to the stated depth; in every state: no task panicked, session alive, Have implies a stored verified piece, an owned piece stays owned, no connection task waits for a block its honest peer already delivered, no peer that unchokes us and has announced a piece nobody is fetching is left without a request; every state that is not expanded further must reach 'all pieces owned, extractor ran, every output file byte-identical, event loop still iterating' under the fair default continuation (each honest peer does its next scripted action, otherwise time passes up to a 900 s horizon)."));
     o.assume("unseamed replays: the one-seeder downloads are repeated with the connect seam inactive — the real Session connects over loopback TCP (real clock) to an honest seeder in the harness; the sequence of messages that seeder receives and the extracted files must equal those of the in-memory run (a mismatch is a machinery error)");
     o.assume("fairness: honest peers eventually unchoke, answer every valid request, and an interested peer eventually loses interest or leaves; only outgoing connections exist in this world (an incoming one needs a real socket, which cannot be mixed with the paused clock); every tie-break of the piece chooser is enumerated");
     o
